@@ -36,7 +36,11 @@ theorem keys_erase (l : OrdMap) (k : Nat) : keys (erase l k) = (keys l).filter (
 theorem contains_iff_mem (l : OrdMap) (k : Nat) : contains l k = true ↔ k ∈ keys l := by
   simp [contains, keys]
 
-theorem valueAt_eq (t : TreeTable) (k : Nat) : t.valueAt k = (OrdMap.lookup t.abs k).getD 0 := rfl
+/-- dereferencing the node pointer of key `k` gives the value the map holds for `k` -/
+theorem valueAt_eq (ho : TotalOrder cmp) {t : TreeTable} (h : t.Inv cmp) (k : Nat) :
+    t.valueAt k = (OrdMap.lookup t.abs k).getD 0 := by
+  unfold valueAt abs
+  rw [Tree.entry_posOf_eq_lookup (Tree.bst_nodup ho h.1) k]
 
 /-- simulation relation between the C iterator (node pointers, here keys) and the ideal cursor -/
 structure IterRel (t : TreeTable) (it : TreeIter) (cu : Cursor) : Prop where
@@ -80,7 +84,12 @@ theorem iterStep_sim (ho : TotalOrder cmp) {t : TreeTable} (h : t.Inv cmp) {it :
       have hk1 : k ∉ done := fun x => (List.nodup_append.1 hnd).2.2 k x k (by simp) rfl
       have hk2 : k ∉ rest := (List.nodup_cons.1 (List.nodup_append.1 hnd).2.1).1
       have hna := nextAfter_keys t.abs done k rest hsplit hk1
-      simp only [iterStep, iterNext, hnext, Cursor.step, Cursor.next, htodo]
+      have hkm : k ∈ t.root.toList.map (·.1) := by
+        show k ∈ keys t.abs; rw [hsplit]; simp
+      -- the pointer walk from the node just yielded arrives at the in-order neighbour
+      rw [show nextAfter t.abs k = Tree.succOfNode t.root k from
+        (Tree.succOfNode_eq (Tree.bst_nodup ho h.1) k hkm).symm] at hna
+      simp only [iterStep, iterNext, hnext, Cursor.step, Cursor.next, htodo, valueAt_eq ho h]
       refine ⟨by triv, by triv, h, ⟨⟨done ++ [k], by rw [hsplit]; simp⟩, hna, ?_⟩,
         fun x => by simp at x, fun _ => by triv, by triv, by triv⟩
       exact ⟨rfl, by rw [hsplit]; simp, hk2⟩
@@ -107,7 +116,7 @@ theorem iterStep_sim (ho : TotalOrder cmp) {t : TreeTable} (h : t.Inv cmp) {it :
       have hlk : OrdMap.lookup t.abs k = some (t.valueAt k) := by
         have := contains_iff_lookup t.abs k
         rw [hcon] at this
-        rw [valueAt_eq]
+        rw [valueAt_eq ho h]
         cases hl : OrdMap.lookup t.abs k with
         | none => rw [hl] at this; simp at this
         | some v => rfl
@@ -150,3 +159,86 @@ theorem iterRun_owns (ho : TotalOrder cmp) (prog : List IterOp) {t : TreeTable} 
   obtain ⟨_, _, _, _, _, g, i⟩ := iterRun_sim ho prog h hr m hm
   unfold Owns at hm ⊢; rw [i]; omega
 end CC.TreeTable
+
+/-! ### the saved `next` pointer and `remove_node` -/
+namespace CC.TreeTable
+open CC.Spec CC.Spec.OrdMap CC.Tree
+variable {cmp : Nat → Nat → Int}
+
+/-- **the iterator's saved `next` pointer survives `remove_node(current)`** (C07).  Let `n` be the key of
+the node `next` points to and `c ≠ n` the key of the node being removed.  After the removal (CLRS
+deletion with all its re-linking, the two-child rule and the rebalancing rotations) the node holding `n`
+is still in the tree — at the position `posOf n` of the new tree —, it holds the same key and value, and
+its in-order context is the old one with `c` erased: everything the walk visits from `next` on is exactly
+what it would have visited before, minus the removed entry. -/
+theorem next_survives_remove (ho : TotalOrder cmp) {t : TreeTable} (h : t.Inv cmp) (c n : Nat) (m : Mem)
+    (hc : contains t.abs c = true) (hm : Owns t m) (hne : n ≠ c) {p : Path}
+    (hp : posOf n t.root = some p) :
+    ∃ p', posOf n (t.removeNode cmp c m).1.root = some p' ∧
+      entryAt (t.removeNode cmp c m).1.root p' = entryAt t.root p ∧
+      ctxBefore (t.removeNode cmp c m).1.root p' = erase (ctxBefore t.root p) c ∧
+      ctxAfter (t.removeNode cmp c m).1.root p' = erase (ctxAfter t.root p) c := by
+  obtain ⟨ha, hi, _⟩ := removeNode_spec ho h c m hc (by unfold Owns at hm; omega)
+  generalize (t.removeNode cmp c m).1 = t' at ha hi
+  obtain ⟨cc, a, v, b, hs⟩ := posOf_spec n t.root hp
+  have hsp := toList_split t.root p hs
+  have hnd' := bst_nodup ho hi.1
+  have hl : t'.root.toList = erase (ctxBefore t.root p) c ++ (n, v) :: erase (ctxAfter t.root p) c := by
+    show t'.abs = _
+    rw [ha]; show erase t.root.toList c = _
+    rw [hsp, erase_append, erase_cons, if_neg hne]
+  cases hp' : posOf n t'.root with
+  | none =>
+    exfalso
+    have := posOf_none n t'.root hp' (n, v) (by rw [hl]; simp)
+    exact this rfl
+  | some p' =>
+    obtain ⟨cc', a', v', b', hs'⟩ := posOf_spec n t'.root hp'
+    have hsp' := toList_split t'.root p' hs'
+    rw [hsp'] at hnd'
+    obtain ⟨x, y, z⟩ := split_unique hnd' (hsp'.symm.trans hl)
+    exact ⟨p', rfl, by rw [entryAt_of_subtree hs', entryAt_of_subtree hs, y], x, z⟩
+
+/-- consequently the successor walk from the saved pointer continues over the not-yet-visited entries:
+when the removed node lies before `next` (it is the node yielded last), nothing after `next` changed -/
+theorem walk_after_remove_unchanged (ho : TotalOrder cmp) {t : TreeTable} (h : t.Inv cmp) (c n : Nat) (m : Mem)
+    (hc : contains t.abs c = true) (hm : Owns t m) (hlt : cmp c n < 0) {p : Path}
+    (hp : posOf n t.root = some p) :
+    ∃ p', posOf n (t.removeNode cmp c m).1.root = some p' ∧
+      ctxAfter (t.removeNode cmp c m).1.root p' = ctxAfter t.root p := by
+  obtain ⟨p', h1, _, _, h4⟩ := next_survives_remove ho h c n m hc hm (fun e => ho.ne_of_lt hlt e.symm) hp
+  refine ⟨p', h1, ?_⟩
+  rw [h4]
+  obtain ⟨cc, a, v, b, hs⟩ := posOf_spec n t.root hp
+  have hsorted : Sorted cmp (ctxBefore t.root p ++ (n, v) :: ctxAfter t.root p) := by
+    rw [← toList_split t.root p hs]; exact h.1
+  obtain ⟨_, _, _, h4', _⟩ := sorted_append_cons.1 hsorted
+  exact erase_self_of_ne (fun e he => ho.ne_of_lt (ho.trans _ _ _ hlt (h4' e he)) |>.symm)
+
+end CC.TreeTable
+
+namespace CC.Tree
+/-- CLRS's two-child rule as the model has it: the successor of `z` — the node `get_successor_node(z)`
+arrives at, i.e. the iterator's saved `next` when `z` is `current` — is unlinked from the right subtree
+and its key and value take `z`'s position and `z`'s colour; then the right subtree's deficit, if any, is
+repaired from that position.  (In the C code it is the successor *node* that is re-linked into `z`'s
+place and `z` that is freed: the pointer stays valid.) -/
+theorem removeHere_moves_successor (c : Colour) (l : Tree) (k v : Nat) (r : Tree) (hl : l ≠ nil) (hr : r ≠ nil) :
+    ∃ e, succEntryAt (node c l k v r) [] = some e ∧
+      removeHere (node c l k v r) =
+        (if (delMin r).2 then fixDelRight (node c l e.1 e.2 (delMin r).1)
+         else (node c l e.1 e.2 (delMin r).1, false)) := by
+  obtain ⟨c', k', v', b', h1, h2⟩ := treeMin_spec r hr
+  have hmin : minEntry r = some (k', v') := by
+    rw [minEntry_eq, toList_split r _ h1, h2]; rfl
+  refine ⟨(k', v'), ?_, ?_⟩
+  · simp only [succEntryAt, succPath, subtree, ne_eq, hr, not_false_eq_true, if_true, List.nil_append,
+      Option.bind_some]
+    exact entryAt_of_subtree (t := node c l k v r) (p := Dir.R :: treeMinPath r) h1
+  · cases l with
+    | nil => exact absurd rfl hl
+    | node lc ll lk lv lr =>
+      cases r with
+      | nil => exact absurd rfl hr
+      | node rc rl rk rv rr => simp only [removeHere, hmin]
+end CC.Tree
